@@ -20,6 +20,9 @@ import (
 // in the server does.
 const sentinelMarker = "C19SENTINEL"
 
+// Sentinel files whose *name* carries the marker: a directory listing gives them away.
+const sentinelNameMarker = "C19SENTINELNAME"
+
 type layout struct {
 	D      string `json:"d"`    // batch directory (parent of the server root)
 	Root   string `json:"root"` // server root
@@ -166,30 +169,33 @@ func sentinelFiles() map[string]string {
 			sentinelMarker, tag, sentinelMarker, tag)
 	}
 	return map[string]string{
-		"r/secret/passwd.json":        desc("secret-passwd"),
-		"r/secret/x.json":             desc("secret-x"),
-		"r/secret/index.html":         "<html>" + sentinelMarker + "-secret-index</html>\n",
-		"r/secret/rec.webm":           sentinelMarker + "-secret-rec\n",
-		"r/secret/keep.webm":          sentinelMarker + "-secret-keep\n",
-		"r/secret/sub/deep.json":      desc("secret-sub-deep"),
-		"r/groups-evil/x.json":        desc("groups-evil-x"),
-		"r/groups.json":               desc("groups-json"),
-		"r/x.json":                    desc("root-x"),
-		"r/passwd.json":               desc("root-passwd"),
-		"r/secret.json":               desc("root-secret"),
-		"r/recordings.json":           desc("recordings-json"),
-		"r/static.json":               desc("static-json"),
-		"r/index.html":                "<html>" + sentinelMarker + "-root-index</html>\n",
-		"r/rec.webm":                  sentinelMarker + "-root-rec\n",
-		"r/recordings-evil/g/f.webm":  sentinelMarker + "-recordings-evil\n",
-		"r/recordings-evil/grec.webm": sentinelMarker + "-recordings-evil-2\n",
-		"r/static-evil/index.html":    "<html>" + sentinelMarker + "-static-evil</html>\n",
-		"r/staticx":                   sentinelMarker + "-staticx\n",
-		"x.json":                      desc("parent-x"),
-		"passwd.json":                 desc("parent-passwd"),
-		"index.html":                  "<html>" + sentinelMarker + "-parent-index</html>\n",
-		"secret/passwd.json":          desc("parent-secret-passwd"),
-		"secret/rec.webm":             sentinelMarker + "-parent-secret-rec\n",
+		"r/secret/passwd.json":                       desc("secret-passwd"),
+		"r/secret/x.json":                            desc("secret-x"),
+		"r/secret/index.html":                        "<html>" + sentinelMarker + "-secret-index</html>\n",
+		"r/secret/rec.webm":                          sentinelMarker + "-secret-rec\n",
+		"r/secret/keep.webm":                         sentinelMarker + "-secret-keep\n",
+		"r/secret/" + sentinelNameMarker + "-a.webm": sentinelMarker + "-secret-named\n",
+		"r/secret/" + sentinelNameMarker + "-b.json": desc("secret-named"),
+		"r/" + sentinelNameMarker + "-c.html":        sentinelMarker + "-root-named\n",
+		"r/secret/sub/deep.json":                     desc("secret-sub-deep"),
+		"r/groups-evil/x.json":                       desc("groups-evil-x"),
+		"r/groups.json":                              desc("groups-json"),
+		"r/x.json":                                   desc("root-x"),
+		"r/passwd.json":                              desc("root-passwd"),
+		"r/secret.json":                              desc("root-secret"),
+		"r/recordings.json":                          desc("recordings-json"),
+		"r/static.json":                              desc("static-json"),
+		"r/index.html":                               "<html>" + sentinelMarker + "-root-index</html>\n",
+		"r/rec.webm":                                 sentinelMarker + "-root-rec\n",
+		"r/recordings-evil/g/f.webm":                 sentinelMarker + "-recordings-evil\n",
+		"r/recordings-evil/grec.webm":                sentinelMarker + "-recordings-evil-2\n",
+		"r/static-evil/index.html":                   "<html>" + sentinelMarker + "-static-evil</html>\n",
+		"r/staticx":                                  sentinelMarker + "-staticx\n",
+		"x.json":                                     desc("parent-x"),
+		"passwd.json":                                desc("parent-passwd"),
+		"index.html":                                 "<html>" + sentinelMarker + "-parent-index</html>\n",
+		"secret/passwd.json":                         desc("parent-secret-passwd"),
+		"secret/rec.webm":                            sentinelMarker + "-parent-secret-rec\n",
 	}
 }
 
